@@ -34,6 +34,8 @@ def scalar_cfgs(tier):
     return C.quick_configs(scalar=True) if tier == "quick" else C.thorough_configs()
 
 
+PENDING = {}
+
 PROPS = {
     "C01": {
         "tus": ["t_arith"],
